@@ -6,6 +6,7 @@ import Zc.Proofs.Respond
 import Zc.Proofs.Packetize
 import Zc.Proofs.SurviveCache
 import Zc.Props.C04
+import Zc.Proofs.Sched2
 /-! `DownOK` for the composed downstream `Zc.Survive.Comp.down`: each of the three component
 obligations is proved from the theorems of the component models, and what cannot be is a named
 hypothesis about the uninterpreted residue `Rest`:
@@ -47,6 +48,22 @@ def RecNamesOK (r : Rec) : Prop :=
 
 theorem recNamesOK_lifeFree : LifeFree RecNamesOK := fun _ _ _ h => h
 
+/-- numeric rdata fields in the encoder's ranges -/
+def RDataNum : RData → Prop
+  | .addr a _ => a.length ≤ 60000
+  | .txt t => t.length ≤ 60000
+  | .srv p w q _ => p < 65536 ∧ w < 65536 ∧ q < 65536
+  | _ => True
+
+/-- the numeric fields of a cached record are what the decoder can produce from a datagram of at most 8966
+bytes: 16-bit type, 15-bit class, 32-bit TTL, 16-bit SRV numbers, byte strings no longer than the datagram -/
+def RecFieldsOK (r : Rec) : Prop :=
+  r.type < 65536 ∧ r.class_ < 32768 ∧ r.ttl < 4294967296 ∧ RDataNum r.rdata ∧
+    (r.rdata.kind = .hinfo → r.type = 13) ∧ (r.rdata.kind = .nsec → r.type = 47)
+
+theorem recFieldsOK_life : LifeOK RecFieldsOK (fun t => t < 4294967296) :=
+  ⟨fun _ _ _ h ht => ⟨h.1, h.2.1, ht, h.2.2.2⟩, fun _ h => h.2.2.1, by decide, by decide⟩
+
 structure CInv (d : CState ρ) : Prop where
   /-- the indexed cache refines a duplicate-free flat store (C05's `CacheInv` in its inductive form) -/
   cache : ∃ s, Refines lower d.cache s ∧ Flat.WF lower s
@@ -56,17 +73,22 @@ structure CInv (d : CState ρ) : Prop where
   in the by-name index and in the by-server index — carries only names that are texts of wire names with
   encodable labels.  Established at ingestion from `C15_encodable`, never disturbed by the lifetime re-stamping. -/
   names : CacheAll RecNamesOK d.cache
+  /-- … and numeric fields in the encoder's ranges (what `packets()` needs besides short labels) -/
+  fields : CacheAll RecFieldsOK d.cache
   /-- C03's memo invariant: every memoised record of a registered service equals a fresh build -/
   fresh : AllFresh lower d.reg
   safe : RegSafe lower ettl d.reg
+  /-- C10's two-container invariant of every browser's query scheduler: the dict's values are exactly the live heap
+  members, one per alias (`HD`); it is what makes `del self._next_scheduled_for_alias[alias]` safe -/
+  scheds : ∀ cs ∈ d.scheds, Sched2.Inv2 cs.2
   /-- between blocks no browser has a callback pending (the hypothesis `b.pending = []` of C04's theorems) -/
   browsers : ∀ b ∈ d.browsers, b.pending = []
   rest : Iρ d.rest
 
 /-! ### the residue -/
 
-/-- **residual assumption 1** — the listeners that are not browsers (service-info lookups, user
-`RecordUpdateListener`s), the browsers' query-scheduler bookkeeping and `async_notify_all` return
+/-- **residual assumption 1** — the listeners that are neither browsers nor lookups (user
+`RecordUpdateListener`s), waking lookup futures and `async_notify_all` return
 normally and keep their invariant, whatever records and cache they are shown -/
 def ListenersOK : Prop :=
   ∀ r0 now pairs c1 c2 n, Iρ r0 → ∃ r1 o, R.listeners r0 now pairs c1 c2 n = .ok (r1, o) ∧ Iρ r1
@@ -85,7 +107,67 @@ def RouteOK : Prop :=
 (it cannot raise by type; C12's model of it is a total function) -/
 def QueueOK : Prop := ∀ r0 t sel, Iρ r0 → Iρ (R.enqueue r0 t sel).1
 
-/-! ### obligation 1: the record manager, the cache, the browsers -/
+/-! ### obligation 1: the record manager, the cache, the browsers, their schedulers -/
+
+theorem foldlM_ok {α β ε : Type} {P : α → Prop} {f : α → β → Except ε α} (hf : ∀ s x, P s → ∃ s', f s x = .ok s' ∧ P s') :
+    ∀ (l : List β) (s : α), P s → ∃ s', l.foldlM f s = .ok s' ∧ P s' := by
+  intro l
+  induction l with
+  | nil => intro s h; exact ⟨s, rfl, h⟩
+  | cons x t ih =>
+    intro s h
+    obtain ⟨s1, h1, hp1⟩ := hf s x h
+    obtain ⟨s2, h2, hp2⟩ := ih s1 hp1
+    exact ⟨s2, by simp only [List.foldlM, h1, bind, Except.bind]; exact h2, hp2⟩
+
+theorem mapM_ok {α β ε : Type} {P : α → Prop} {Q : β → Prop} {f : α → Except ε β} (hf : ∀ a, P a → ∃ b, f a = .ok b ∧ Q b) :
+    ∀ (l : List α), (∀ a ∈ l, P a) → ∃ l', l.mapM f = .ok l' ∧ ∀ b ∈ l', Q b := by
+  intro l
+  induction l with
+  | nil => intro _; exact ⟨[], rfl, by intro b hb; simp at hb⟩
+  | cons a t ih =>
+    intro h
+    obtain ⟨b, hb, hq⟩ := hf a (h a List.mem_cons_self)
+    obtain ⟨l', hl', hq'⟩ := ih (fun x hx => h x (List.mem_cons_of_mem _ hx))
+    refine ⟨b :: l', ?_, ?_⟩
+    · simp only [List.mapM_cons, hb, hl', bind, Except.bind, pure, Except.pure]
+    · intro x hx
+      simp only [List.mem_cons] at hx
+      rcases hx with rfl | hx
+      · exact hq
+      · exact hq' x hx
+
+/-- **the scheduler bookkeeping of `async_update_records` never raises** (C10's `reschedule2_refines` /
+`cancel2_refines` under the dict/heap invariant): no `KeyError` from `del self._next_scheduled_for_alias[…]`,
+no dangling dict value -/
+theorem schedOne_ok (cfg : Sched.Cfg) (now : Ms) (s : Sched2.S2) (u : Rec × Option Rec) (h : Sched2.Inv2 s) :
+    ∃ s', schedOne lower possible cfg now s u = .ok s' ∧ Sched2.Inv2 s' := by
+  unfold schedOne
+  split
+  · split
+    · rename_i alias _
+      apply foldlM_ok (P := Sched2.Inv2) _ _ s h
+      intro s0 _ h0
+      split
+      · exact Sched2.reschedule2_refines cfg h0 _ _ _ _ |>.imp fun s' hs' => ⟨hs'.1, hs'.2.2⟩
+      · split
+        · exact ⟨_, rfl, (Sched2.cancel2_refines h0 _).2⟩
+        · exact Sched2.reschedule2_refines cfg h0 _ _ _ _ |>.imp fun s' hs' => ⟨hs'.1, hs'.2.2⟩
+    · exact ⟨s, rfl, h⟩
+  · exact ⟨s, rfl, h⟩
+
+theorem schedsStep_ok (now : Ms) (pairs : List (Rec × Option Rec)) (ss : List (Sched.Cfg × Sched2.S2))
+    (h : ∀ cs ∈ ss, Sched2.Inv2 cs.2) :
+    ∃ ss', schedsStep lower possible now pairs ss = .ok ss' ∧ ∀ cs ∈ ss', Sched2.Inv2 cs.2 := by
+  unfold schedsStep
+  have hf : ∀ cs : Sched.Cfg × Sched2.S2, Sched2.Inv2 cs.2 →
+      ∃ b : Sched.Cfg × Sched2.S2,
+        (Except.map (fun s => (cs.1, s)) (List.foldlM (schedOne lower possible cs.1 now) cs.2 pairs) : Except Sched2.Err _) = .ok b ∧
+        Sched2.Inv2 b.2 := by
+    intro cs hcs
+    obtain ⟨s', hs', hi'⟩ := foldlM_ok (P := Sched2.Inv2) (fun s u hs => schedOne_ok lower possible cs.1 now s u hs) pairs cs.2 hcs
+    exact ⟨(cs.1, s'), by rw [hs']; rfl, hi'⟩
+  exact mapM_ok (P := fun cs : Sched.Cfg × Sched2.S2 => Sched2.Inv2 cs.2) (Q := fun cs : Sched.Cfg × Sched2.S2 => Sched2.Inv2 cs.2) hf ss h
 
 /-- **no `KeyError` out of the cache** (C05/C06 composed): on a cache that refines a duplicate-free
 store, `async_updates_from_response` returns for *every* record list, and the new cache refines a
@@ -133,6 +215,35 @@ theorem recsOf_names {k : Pkt} (hk : PktOK k) : ∀ r ∈ recsOf k, RecNamesOK r
   | nsec n ts =>
     rw [hrd] at hrw; simp at hrw; subst hrw
     exact ⟨h0, hname w hw n (Or.inr (by rw [hrd]; simp [DecodeSpec.rdataNames]))⟩
+
+theorem recsOf_fields {k : Pkt} (hk : PktOK k) : ∀ r ∈ recsOf k, RecFieldsOK r := by
+  obtain ⟨_, _, _, _, _, hlen, hrec⟩ := hk
+  intro r hr
+  unfold recsOf at hr
+  obtain ⟨w, hw, hrw⟩ := List.mem_filterMap.mp hr
+  obtain ⟨ht, httl, ⟨hk1, hk2⟩, hrd⟩ := hrec w hw
+  unfold recOfW at hrw
+  have hc := GenFacts.Survive.class_of_lt w.rclass
+  cases hrdata : w.rdata with
+  | addr a =>
+    rw [hrdata] at hrw hrd; simp at hrw; subst hrw
+    exact ⟨ht, hc, httl, (by simp only [RDataNum]; simp only at hrd; omega), (by intro h; cases h), (by intro h; cases h)⟩
+  | txt t =>
+    rw [hrdata] at hrw hrd; simp at hrw; subst hrw
+    exact ⟨ht, hc, httl, (by simp only [RDataNum]; simp only at hrd; omega), (by intro h; cases h), (by intro h; cases h)⟩
+  | hinfo c o =>
+    rw [hrdata] at hrw; simp at hrw; subst hrw
+    exact ⟨ht, hc, httl, trivial, (fun _ => hk1 c o hrdata), (by intro h; cases h)⟩
+  | other raw => rw [hrdata] at hrw; simp at hrw
+  | ptr t =>
+    rw [hrdata] at hrw; simp at hrw; subst hrw
+    exact ⟨ht, hc, httl, trivial, (by intro h; cases h), (by intro h; cases h)⟩
+  | srv a b c t =>
+    rw [hrdata] at hrw hrd; simp at hrw; subst hrw
+    exact ⟨ht, hc, httl, hrd, (by intro h; cases h), (by intro h; cases h)⟩
+  | nsec n ts =>
+    rw [hrdata] at hrw; simp at hrw; subst hrw
+    exact ⟨ht, hc, httl, trivial, (by intro h; cases h), (fun _ => hk2 n ts hrdata)⟩
 
 /-- every record a service can be asked for by one question is one of its `own` records -/
 theorem candidates_sub_own (s : Svc) (q : Question) : ∀ a ∈ RespSpec.candidates lower ettl s q, a ∈ RespSpec.own lower ettl s := by
@@ -200,18 +311,22 @@ theorem comp_ingestOK (hL : ListenersOK R Iρ) :
     IngestOK (down lower possible ettl R) (CInv lower ettl Iρ) := by
   intro d k hI hk
   obtain ⟨out, ho, hcache⟩ := cache_ingest_ok lower hI.cache k.now (recsOf k)
-  have hnames : CacheAll RecNamesOK out.cache := ingest_all recNamesOK_lifeFree hI.names k.now (recsOf_names hk) ho
+  have hnames : CacheAll RecNamesOK out.cache := ingest_all (LifeOK.ofFree recNamesOK_lifeFree) hI.names k.now (recsOf_names hk) ho
+  have hfields : CacheAll RecFieldsOK out.cache := ingest_all recFieldsOK_life hI.fields k.now (recsOf_fields hk) ho
   show ∃ d' o, ingest lower possible R d k = .ok (d', o) ∧ _
   unfold ingest
   rw [ho]
   dsimp only
   cases hc1 : out.call1 with
-  | none => exact ⟨_, _, rfl, ⟨hcache, hI.reg, hnames, hI.fresh, hI.safe, hI.browsers, hI.rest⟩⟩
+  | none => exact ⟨_, _, rfl, ⟨hcache, hI.reg, hnames, hfields, hI.fresh, hI.safe, hI.scheds, hI.browsers, hI.rest⟩⟩
   | some call =>
+    dsimp only
+    obtain ⟨ss', hss, hinv⟩ := schedsStep_ok lower possible k.now call.1 d.scheds hI.scheds
+    rw [hss]
     dsimp only
     obtain ⟨r1, o, hl, hr1⟩ := hL d.rest k.now call.1 call.2 out.cache out.notify hI.rest
     rw [hl]
-    refine ⟨_, _, rfl, ⟨hcache, hI.reg, hnames, hI.fresh, hI.safe, ?_, hr1⟩⟩
+    refine ⟨_, _, rfl, ⟨hcache, hI.reg, hnames, hfields, hI.fresh, hI.safe, hinv, ?_, hr1⟩⟩
     intro b hb
     simp only [browsersStep, List.map_map, List.mem_map] at hb
     obtain ⟨b0, _, rfl⟩ := hb
@@ -264,15 +379,15 @@ theorem comp_answerOK (hR : RouteOK R Iρ) :
   unfold answer
   rcases Zc.respond_ok lower ettl hI.reg (ks.map msgOf) with ⟨_, hr⟩ | ⟨_, hr⟩
   · rw [hr]
-    exact ⟨_, none, rfl, ⟨hI.cache, hI.reg, hI.names, hI.fresh, hI.safe, hI.browsers, hI.rest⟩, by intro q hq; cases hq⟩
+    exact ⟨_, none, rfl, ⟨hI.cache, hI.reg, hI.names, hI.fields, hI.fresh, hI.safe, hI.scheds, hI.browsers, hI.rest⟩, by intro q hq; cases hq⟩
   · rw [hr]
     dsimp only
     have hown := respond_records_own lower ettl hI.reg hI.fresh (ks.map msgOf) hr
     obtain ⟨r1, sel, hroute, hr1, hsel⟩ := hR d.rest d.cache ks u (answerMap lower ettl d.reg (ks.map msgOf)) hI.rest
     rw [hroute]
-    refine ⟨_, _, rfl, ⟨hI.cache, warmed_inv lower hI.reg _, hI.names,
+    refine ⟨_, _, rfl, ⟨hI.cache, warmed_inv lower hI.reg _, hI.names, hI.fields,
       fun s hs => warmed_memo lower (ks.map msgOf) (lower s.name) (fun o ho _ => hI.fresh o ho) s hs rfl,
-      regSafe_of_fields lower ettl (warmed_fields lower d.reg _) hI.safe, hI.browsers, hr1⟩, ?_⟩
+      regSafe_of_fields lower ettl (warmed_fields lower d.reg _) hI.safe, hI.scheds, hI.browsers, hr1⟩, ?_⟩
     intro q hq
     cases hq
     have hsafe : ∀ x ∈ dictRecords sel.ucast ++ dictRecords sel.mcastNow, RecSafe (wireOfRec x) 0 := by
@@ -290,7 +405,7 @@ theorem comp_enqueueOK (hQ : QueueOK R Iρ) : EnqueueOK (down lower possible ett
   unfold enqueue
   cases d.pending with
   | none => exact hI
-  | some sel => exact ⟨hI.cache, hI.reg, hI.names, hI.fresh, hI.safe, hI.browsers, hQ d.rest t sel hI.rest⟩
+  | some sel => exact ⟨hI.cache, hI.reg, hI.names, hI.fields, hI.fresh, hI.safe, hI.scheds, hI.browsers, hQ d.rest t sel hI.rest⟩
 
 /-- **`DownOK` for the composition**, from the three residual assumptions -/
 theorem comp_downOK (hL : ListenersOK R Iρ) (hR : RouteOK R Iρ) (hQ : QueueOK R Iρ) :
@@ -299,9 +414,11 @@ theorem comp_downOK (hL : ListenersOK R Iρ) (hR : RouteOK R Iρ) (hQ : QueueOK 
    comp_enqueueOK lower possible ettl R Iρ hQ⟩
 
 /-- the composite invariant holds initially: empty cache, no browsers, empty registry -/
-theorem CInv.init (r0 : ρ) (h : Iρ r0) : CInv lower ettl Iρ ⟨{}, [], [], {}, none, r0⟩ :=
+theorem CInv.init (r0 : ρ) (h : Iρ r0) : CInv lower ettl Iρ ⟨{}, [], [], [], {}, [], [], none, r0⟩ :=
   ⟨⟨[], Refines.empty lower, List.Pairwise.nil⟩, IndexInv.empty lower,
-   ⟨by intro kb hkb; simp at hkb, by intro kb hkb; simp at hkb⟩, by intro s hs; simp at hs, by intro s hs; simp at hs,
+   ⟨by intro kb hkb; simp at hkb, by intro kb hkb; simp at hkb⟩, ⟨by intro kb hkb; simp at hkb, by intro kb hkb; simp at hkb⟩,
+   by intro s hs; simp at hs, by intro s hs; simp at hs,
+   by intro cs hcs; simp at hcs,
    by intro b hb; simp at hb, h⟩
 
 end
